@@ -980,4 +980,4 @@ if __name__ == "__main__":
         print(json.dumps([(t["name"], len(params_of(t, sys.argv[2])), [str(p) for p in params_of(t, sys.argv[2])]) for t in TARGETS]))
     else:
         print(json.dumps(run_one(sys.argv[1], sys.argv[2], int(sys.argv[3]), sys.argv[4],
-                                 budget=int(os.environ.get("IRSYM_EQUIV_BUDGET", "420" if sys.argv[2] == "quick" else "2000"))), default=str))
+                                 budget=int(os.environ.get("IRSYM_EQUIV_BUDGET", "420" if sys.argv[2] == "quick" else "3000"))), default=str))
